@@ -238,6 +238,10 @@ func (w *worker[T, JobType]) WaitUntilFinished() {
 }
 
 func (w *worker[T, JobType]) Errs() <-chan error {
+	// Stop and Restart replace errorChan under the mutex
+	w.mx.RLock()
+	defer w.mx.RUnlock()
+
 	return w.errorChan
 }
 
